@@ -286,10 +286,34 @@ theorem es_private_removed (seen : List String) :
 
 /-- a non-private parameter property that would be emitted without a type is a diagnostic
 (defect F28, fixed in /repo by 51f3b44) -/
-theorem untyped_param_prop_is_diagnostic (access : Access) (params : List CtorParam) (hb cs : Bool)
+theorem untyped_param_prop_is_diagnostic (access : Access) (params : List CtorParam) (hb cs ov : Bool)
     (seen : List String) (h : params.any untypedParamProp = true) :
-    transformMember (.ctor access params hb cs) seen = .error .missingType := by
+    transformMember (.ctor access params hb cs ov) seen = .error .missingType := by
   simp [transformMember, h]
+
+/-- **an overload implementation keeps its parameter properties**: whether or not the constructor
+is the implementation behind overload signatures (whose own parameters become `paramN?: any`), an
+accepted constructor contributes exactly the properties its parameter properties declare -/
+theorem ctor_param_props_kept (access : Access) (params : List CtorParam) (hb cs ov : Bool)
+    (seen : List String) (ins : List OMember) (om : Option OMember)
+    (h : transformMember (.ctor access params hb cs ov) seen = .ok (ins, om)) :
+    ins = params.filterMap paramProp := by
+  simp only [transformMember] at h
+  split at h
+  · cases h
+  · split at h
+    · cases h; rfl
+    · cases hp : handleParams (if ov = true then overloadParams (params.map (·.p)) else params.map (·.p)) with
+      | error d => simp [hp, Except.map] at h
+      | ok ps =>
+        simp only [hp, Except.map] at h
+        cases h; rfl
+
+/-- the signature of an accepted overload implementation is `(param0?: any, …)` -/
+example : transformMember (.ctor .pub [{ p := { name := "a", opt := false, rest := false, ty := some "number", dflt := none }, prop := some (.pub, true) }] true false true) [] =
+    .ok ([.prop "a" .pub false true true false (some "number") .dropped],
+         some (.ctor .pub [{ name := "param0", opt := true, rest := false, ty := some "any", dflt := none }] false)) := by
+  rfl
 
 /-- every property made from a parameter property is typed when the constructor is accepted -/
 theorem param_prop_typed (cp : CtorParam) (m : OMember) (h : paramProp cp = some m)
